@@ -583,6 +583,49 @@ func (a *AVP) APIFlags(dropV bool) uint8 {
 	return a.Flags
 }
 
+// BuildOpts selects how a caller assembles an AVP tree through the API.
+type BuildOpts struct {
+	DropV bool // leave the V bit of vendor-specific AVPs to NewAVP
+	// TopDown: create every grouped AVP (and measure it) while it is still
+	// empty, attach it to its parent, and only then add its members, outermost
+	// first - the order of a caller that fills a tree in as it goes. Sizes that
+	// were taken early must not stick.
+	TopDown bool
+}
+
+// Build assembles the AVP through the public constructors.
+func (a *AVP) Build(o BuildOpts) *diam.AVP {
+	if !o.TopDown || a.V.T != TGrouped {
+		return a.ToDiamAVPOpt(o.DropV)
+	}
+	g := &diam.GroupedAVP{}
+	av := diam.NewAVP(a.Code, a.APIFlags(o.DropV), a.Vendor, g)
+	a.fillTopDown(g, o)
+	_ = av.Len()
+	return av
+}
+
+func (a *AVP) fillTopDown(g *diam.GroupedAVP, o BuildOpts) {
+	type pending struct {
+		c *AVP
+		g *diam.GroupedAVP
+	}
+	var later []pending
+	for _, c := range a.Children {
+		if c.V.T == TGrouped {
+			cg := &diam.GroupedAVP{}
+			g.AddAVP(diam.NewAVP(c.Code, c.APIFlags(o.DropV), c.Vendor, cg))
+			later = append(later, pending{c, cg})
+		} else {
+			g.AddAVP(c.ToDiamAVPOpt(o.DropV))
+		}
+	}
+	_ = g.Len() // a caller may look at the size at any time
+	for _, p := range later {
+		p.c.fillTopDown(p.g, o)
+	}
+}
+
 // ToDiamAVPOpt is ToDiamAVP with the V bit optionally left to NewAVP.
 func (a *AVP) ToDiamAVPOpt(dropV bool) *diam.AVP {
 	if a.V.T == TGrouped {
